@@ -161,6 +161,21 @@ def gen_inflate(tier, rng):
     for jj in range(0, 300, 3 if tier == "quick" else 1):
         scns.append(igz.scenario(len(scns), "inflate", list(lst), wrap=0, calls=[[n, 32768 + jj, 0, 0], [0, 1 << 17, 0, 0], [0, 1 << 17, 0, 0]], tail_ai=n, tail_ao=1 << 17, cap=4000, mem=jj % 3,
                                  meta={"family": "long-match-across-staging-end", "salt": jj % 6}))
+    # a stored block that resumes with one or two of its bytes already delivered while more of them wait in the decoder's bit buffer: the stored
+    # block starts 0-4 bytes before the end of the 64 KiB staging buffer (all input, one large output buffer), or the caller's first output
+    # buffer (larger than the staging buffer, so the decoder writes into it directly) ends 0-4 bytes into the stored block
+    def stored(data, final): return bytes([1 if final else 0, len(data) & 255, len(data) >> 8, (len(data) ^ 0xffff) & 255, (len(data) ^ 0xffff) >> 8]) + bytes(data)
+    j = 0
+    for start in [65536 - k for k in range(0, 5)] + [70000, 131072 - 1, 131072 - 2]:
+        body = bytes(igz.corpus(rng, "text", start))
+        for slen in ((3, 9) if tier == "quick" else (3, 4, 5, 8, 9, 40)):
+            c6 = zlib.compressobj(6, zlib.DEFLATED, -15)
+            st = c6.compress(body) + c6.flush(zlib.Z_FULL_FLUSH) + stored(igz.corpus(rng, "random", slen), False) + stored(igz.corpus(rng, "text", 30), False) + stored(igz.corpus(rng, "random", 7), True)
+            n = len(st)
+            firsts = [1 << 18] if start != 70000 else [start + d for d in range(0, 5)]
+            for first in firsts:
+                scns.append(igz.scenario(len(scns), "inflate", list(st), wrap=0, calls=[[n, first, 0, 0], [0, 1 << 17, 0, 0]], tail_ai=n, tail_ao=1 << 17, cap=400, mem=j % 3, meta={"family": "stored-block-resumes-from-bit-buffer", "salt": j % 6})); j += 1
+            scns.append(igz.scenario(len(scns), "inflate", list(st), wrap=0, calls=[], tail_ai=n, tail_ao=[4096, 65536, 32768][j % 3], cap=4000, mem=j % 3, meta={"family": "stored-block-resumes-from-bit-buffer", "salt": j % 6})); j += 1
     return scns
 
 def run(tier, replay=None):
